@@ -214,6 +214,12 @@ class Model:
         """-> list of (value Poly, prob Poly, label)"""
         if isinstance(rhs, L.RPoly):
             return [(self.ev(rhs.poly, state), ONE, None)]
+        if isinstance(rhs, L.RFunc):
+            # Sin/Cos/Exp: only the rational case is modelled (argument 0, as a number or as the current value of a variable)
+            a = self.ev(rhs.arg, state)
+            if a.is_const() and a.const_value() == 0:
+                return [(ZERO if rhs.func == "Sin" else ONE, ONE, None)]
+            raise NotApplicable("functional assignment with a non-zero argument")
         if isinstance(rhs, L.RChoice):
             out = []
             for i, (e, p) in enumerate(zip(rhs.polys, rhs.probs)):
